@@ -272,8 +272,8 @@ func (r *replayer) validate(er *entryResult) (int, []string) {
 			return n, mism
 		}
 		lb, _ := os.ReadFile(logPath)
-		got := nativeTrace(string(lb))
-		want := vc.trace
+		got := filterTrace(nativeTrace(string(lb)), r.cfg.Property)
+		want := filterTrace(vc.trace, r.cfg.Property)
 		n++
 		if vc.outcome == "return" && !strings.Contains(out, "ZZVERIF-DONE") {
 			mism = append(mism, fmt.Sprintf("%s path %d: symbolic path returns, native run did not finish: %s", er.Entry.Name, vc.pathID, tail(out, 6)))
@@ -328,3 +328,19 @@ func harnessOverlay(cfg Config) (map[string]string, error) {
 }
 
 func strconvUnquote(s string) (string, error) { return strconv.Unquote(s) }
+
+// filterTrace drops assertion events of other properties (an entry may serve several properties; only
+// the obligations of the property being checked were discharged on this run).
+func filterTrace(tr []string, prop string) []string {
+	var out []string
+	for _, e := range tr {
+		if strings.HasPrefix(e, "assert ") {
+			lbl := strings.TrimSuffix(strings.TrimPrefix(e, "assert "), " FAILED")
+			if lp := labelProp(lbl); lp != "" && lp != prop {
+				continue
+			}
+		}
+		out = append(out, e)
+	}
+	return out
+}
